@@ -24,7 +24,7 @@ CHECKS = {
   "The same generated program (all option combinations, extraction, link_to, removals, raw index calls, damage to content and bucket files between steps) runs in three fresh caches through the _sync API, this build's async runtime and the other runtime (the other build's driver process, step-synchronous); per step the normalised results must be equal and admitted by the model, the final trees must decode to the same records and content; a mixed execution assigns each step a generated flavour and is judged by the model, then read through all three. Two further case kinds without a model: planted odd index records (read side must agree), and programs run in three single-threaded driver processes with a relative cache path and a changing working directory.",
   "The remote flavour is the other build's driver binary; timestamps assigned by the library are blanked after the model judged them."),
  "C13": ("fault_enumeration", "system-call fault injection at every call of each operation under a ptrace supervisor; truthfulness + model sweep + fault-free re-run oracle",
-  "29 victim operations x 2 flavours x 2 builds: a fault-free traced run lists the filesystem system calls of the operation, then every call in turn is made to fail with EIO and a class-specific errno (all applicable errnos and fault pairs in the thorough tier), plus short-write-then-ENOSPC; the call must return, successes must be truthful per the model, 'not found' for a present key is a violation, afterwards every other key/address equals the model, the content tree is valid, and the same call re-run without faults behaves normally. The traced process carries on after the faulty call with further writes, a removal and lookups (state a failed call leaves inside the process leaks into those); victims include values another key already holds, writes short of the declared size, a key whose bucket exceeds 1 MiB, the temp area on another filesystem, and a really full tmpfs mounted on the cache (private mount namespace).",
+  "27 victim operations x 2 flavours x 2 builds: a fault-free traced run lists the filesystem system calls of the operation, then every call in turn is made to fail with EIO and a class-specific errno (all applicable errnos and fault pairs in the thorough tier), plus short-write-then-ENOSPC; the call must return, successes must be truthful per the model, 'not found' for a present key is a violation, afterwards every other key/address equals the model, the content tree is valid, and the same call re-run without faults behaves normally. The traced process carries on after the faulty call with further writes, a removal and lookups (state a failed call leaves inside the process leaks into those); victims include values another key already holds, writes short of the declared size, a key whose bucket exceeds 1 MiB, the temp area on another filesystem, and a really full tmpfs mounted on the cache (private mount namespace).",
   "Only the stated fault classes are injected; leftovers in the temp area and partial index lines are legal; destination of a failed extraction is not judged."),
  "C14": ("exploration", "model-based stateful PBT with abandonment points incl. mid-flight drop; temp-area drain oracle",
   "Programs interleaving successful writes, rejected commits and writers abandoned after creation / after j chunks / mid-flight (future polled once then dropped) / after flush; the model must be unchanged by them after every step and the temp area must drain (tokio: runtime dropped = pool joined; async-std: polled, two snapshots).",
